@@ -91,7 +91,7 @@ struct Runner {
         else if (v == "subin.s") { Poly A = P(0); o << sp(D.subin(A, S(1))); }
         else if (v == "neg") { Poly A = P(0); o << sp(D.neg(R, A)); }
         else if (v == "negin") { Poly A = P(0); o << sp(D.negin(A)); }
-        // the domain's own constant `zero` (the vector [0]) of a fresh domain object as operand; argument 0 is ignored
+        // the domain's own constant `zero` of a fresh domain object as operand (it was the vector [0] until ffae607, now the empty vector); argument 0 is ignored
         else if (v == "add.rps.Dzero") { PolDom D2(F, Indeter("X")); o << sp(D2.add(R, D2.zero, S(1))); }
         else if (v == "add.rsp.Dzero") { PolDom D2(F, Indeter("X")); o << sp(D2.add(R, S(1), D2.zero)); }
         else if (v == "sub.rps.Dzero") { PolDom D2(F, Indeter("X")); o << sp(D2.sub(R, D2.zero, S(1))); }
